@@ -55,6 +55,7 @@ def mutations(spec, *, labels=("q",)):
         for lab in labels:
             out.append(["add", i, lab, None])
             out.append(["add", i, lab, True])
+        out.append(["setid", i])  # the same data under a new explicit id
         out.append(["remove_children", i])
         out.append(["sort", i])
         for j in range(n):
@@ -77,6 +78,10 @@ def apply(tree, nodes, mut, mk, typed=False) -> bool:
             if typed:
                 kw["kind"] = "k1"
             nodes[mut[1]].add(mk(mut[2]), **kw)
+        elif k == "setid":
+            nodes[mut[1]].set_data(nodes[mut[1]]._data, data_id="hid", with_clones=False)
+        elif k == "rename_keep_id":
+            nodes[mut[1]].set_data(mk("q"), data_id=nodes[mut[1]]._data_id, with_clones=False)
         elif k == "remove_children":
             nodes[mut[1]].remove_children()
         elif k == "sort":
